@@ -152,7 +152,7 @@ macro_rules! arith {
             if want.is_finite() {
                 assert!(matches!(as_num(&r), Some(x) if x == want), $lbl);
             } else {
-                assert!(is_err(&r), concat!($lbl, " (non-finite result must be an error)"));
+                assert!(is_err(&r), $lbl);
             }
             kani::cover!(!want.is_finite(), "overflowing operands reached");
             kani::cover!(want.is_finite() && want != 0.0, "ordinary result reached");
@@ -160,11 +160,11 @@ macro_rules! arith {
     };
 }
 //@harness name=num_add tier=quick timeout=300 unwind=6 desc="a+b is Ok(IEEE sum) iff the sum is finite, else an error" bounds="all pairs of finite doubles"
-arith!(num_add, Add, "+", |x: f64, y: f64| x + y, "C09.add");
+arith!(num_add, Add, "+", |x: f64, y: f64| x + y, "C09.add sum is the IEEE result when finite, an error otherwise");
 //@harness name=num_sub tier=quick timeout=300 unwind=6 desc="a-b is Ok(IEEE difference) iff finite, else an error" bounds="all pairs of finite doubles"
-arith!(num_sub, Sub, "-", |x: f64, y: f64| x - y, "C09.sub");
+arith!(num_sub, Sub, "-", |x: f64, y: f64| x - y, "C09.sub difference is the IEEE result when finite, an error otherwise");
 //@harness name=num_mul tier=quick timeout=600 unwind=6 desc="a*b is Ok(IEEE product) iff finite, else an error" bounds="all pairs of finite doubles"
-arith!(num_mul, Mul, "*", |x: f64, y: f64| x * y, "C09.mul");
+arith!(num_mul, Mul, "*", |x: f64, y: f64| x * y, "C09.mul product is the IEEE result when finite, an error otherwise");
 
 fn check_div(fa: f64, a: Val, fb: f64, b: Val) {
     let r = bin(&a, BinaryOpType::Div, &b);
@@ -302,7 +302,7 @@ macro_rules! bitwise {
             if ok {
                 assert!(matches!(as_num(&r), Some(x) if x == want), $lbl);
             } else {
-                assert!(is_err(&r), concat!($lbl, " (operand outside the safe-integer range must be an error)"));
+                assert!(is_err(&r), $lbl);
             }
             kani::cover!(ok && fa < 0.0 && fa != (fa as i64) as f64, "negative fractional operand reached");
             kani::cover!(!ok, "unsafe operand reached");
@@ -310,11 +310,11 @@ macro_rules! bitwise {
     };
 }
 //@harness name=num_bitand tier=quick timeout=300 unwind=6 desc="a&b acts on the truncated integer values; error iff an operand is outside +-(2^53-1)" bounds="all pairs of finite doubles"
-bitwise!(num_bitand, BitAnd, "&", |x: i64, y: i64| x & y, "C09.bitand");
+bitwise!(num_bitand, BitAnd, "&", |x: i64, y: i64| x & y, "C09.bitand acts on the integer values; an operand outside the safe-integer range is an error");
 //@harness name=num_bitor tier=quick timeout=300 unwind=6 desc="a|b, same rule" bounds="all pairs of finite doubles"
-bitwise!(num_bitor, BitOr, "|", |x: i64, y: i64| x | y, "C09.bitor");
+bitwise!(num_bitor, BitOr, "|", |x: i64, y: i64| x | y, "C09.bitor acts on the integer values; an operand outside the safe-integer range is an error");
 //@harness name=num_bitxor tier=quick timeout=300 unwind=6 desc="a^b, same rule" bounds="all pairs of finite doubles"
-bitwise!(num_bitxor, BitXor, "^", |x: i64, y: i64| x ^ y, "C09.bitxor");
+bitwise!(num_bitxor, BitXor, "^", |x: i64, y: i64| x ^ y, "C09.bitxor acts on the integer values; an operand outside the safe-integer range is an error");
 
 //@harness tier=quick timeout=600 desc="a<<b: error for negative count, for either operand outside the safe range, and when the mathematical result does not fit i64; otherwise (a_int * 2^(b_int mod 64))" bounds="all pairs of finite doubles"
 #[kani::proof]
@@ -434,4 +434,274 @@ pub fn numvalue_repr() {
     kani::cover!(x.is_nan(), "NaN candidate reached");
     kani::cover!(x.is_infinite(), "infinite candidate reached");
     kani::cover!(c == Equal && fa.to_bits() != fb.to_bits(), "+0/-0 reached");
+}
+
+// ================================================================================================
+// C01 / C13: the operator type table and the equality functions over all value kinds
+// ================================================================================================
+#[derive(Clone, Copy, PartialEq, Debug)]
+enum Kind {
+    Null,
+    Bool,
+    Num,
+    Str,
+    Arr,
+    Obj,
+    Func,
+}
+fn any_kind() -> Kind {
+    let k: u8 = kani::any();
+    kani::assume(k < 7);
+    match k {
+        0 => Kind::Null,
+        1 => Kind::Bool,
+        2 => Kind::Num,
+        3 => Kind::Str,
+        4 => Kind::Arr,
+        5 => Kind::Obj,
+        _ => Kind::Func,
+    }
+}
+/// a value of the given kind with symbolic content (numbers: small integers; strings: <= 2 ASCII
+/// letters; arrays: <= 1 number; objects/functions: distinct opaque tokens)
+fn any_val_of(k: Kind, id: u8) -> Val {
+    match k {
+        Kind::Null => Val::Null,
+        Kind::Bool => Val::Bool(kani::any()),
+        Kind::Num => {
+            let n: i8 = kani::any();
+            Val::Num(NumValue::new(n as f64).unwrap())
+        }
+        Kind::Str => {
+            let b: [u8; 2] = kani::any();
+            let n: usize = kani::any();
+            kani::assume(n <= 2 && b[0] >= b'a' && b[0] <= b'c' && b[1] >= b'a' && b[1] <= b'c');
+            Val::Str(StrValue(IStr::from_bytes(&b[..n])))
+        }
+        Kind::Arr => {
+            let n: u8 = kani::any();
+            kani::assume(n <= 1);
+            let e: i8 = kani::any();
+            Val::Arr(ArrValue { e: [Prim::Num(e as f64), Prim::Null], n, id })
+        }
+        Kind::Obj => Val::Obj(ObjValue(id)),
+        Kind::Func => Val::Func(FuncVal(id)),
+    }
+}
+fn any_binop() -> BinaryOpType {
+    use BinaryOpType::*;
+    let k: u8 = kani::any();
+    kani::assume(k < 19);
+    [Mul, Div, Mod, Add, Sub, Lhs, Rhs, Lt, Gt, Lte, Gte, BitAnd, BitOr, BitXor, Eq, Neq, And, Or, In][k as usize]
+}
+/// Does the Jsonnet operator table define `a op b` for these operand kinds? (value errors such as
+/// division by zero or overflow are a different matter and are excluded by the operand ranges:
+/// numbers are small integers, shifts use non-negative small counts)
+fn defined(op: BinaryOpType, a: Kind, b: Kind) -> Option<bool> {
+    use BinaryOpType::*;
+    use Kind::*;
+    Some(match op {
+        Eq | Neq => !(a == Func && b == Func),
+        Lt | Gt | Lte | Gte => (a == Num && b == Num) || (a == Str && b == Str) || (a == Arr && b == Arr),
+        In => a == Str && b == Obj,
+        And | Or => a == Bool && b == Bool,
+        Add => {
+            if a == Str || b == Str {
+                // string coercion of the other operand is manifestation (C05): functions are out of the box
+                if a == Func || b == Func {
+                    return None;
+                }
+                true
+            } else {
+                (a == Num && b == Num) || (a == Arr && b == Arr) || (a == Obj && b == Obj)
+            }
+        }
+        Sub | BitAnd | BitOr | BitXor => a == Num && b == Num,
+        Lhs | Rhs => {
+            if a == Num && b == Num {
+                return None; // value-dependent (negative counts, overflow): num_shl / num_shr
+            }
+            false
+        }
+        Div => {
+            if a == Num && b == Num {
+                return None; // value-dependent (zero divisor): num_div_*
+            }
+            false
+        }
+        Mul => {
+            if (a == Str && b == Num) || (a == Num && b == Str) {
+                return None; // jrsonnet extension (string repetition), not part of the table checked here
+            }
+            a == Num && b == Num
+        }
+        Mod => {
+            if a == Str || (a == Num && b == Num) {
+                return None; // string formatting is C12; numeric modulo is value-dependent
+            }
+            false
+        }
+    })
+}
+#[cfg(verif_playback)]
+fn jsonnet_of(v: &Val) -> String {
+    match v {
+        Val::Null => "null".to_string(),
+        Val::Bool(b) => b.to_string(),
+        Val::Num(n) => std::format!("({})", n.get()),
+        Val::Str(s) => std::format!("\"{}\"", core::str::from_utf8(s.0.as_bytes()).unwrap()),
+        Val::Arr(a) => {
+            if a.n == 0 { "[]".to_string() } else { match a.e[0] { Prim::Num(x) => std::format!("[{}]", x), _ => "[null]".to_string() } }
+        }
+        Val::Obj(_) => "{}".to_string(),
+        Val::Func(_) => "(function(x) x)".to_string(),
+    }
+}
+#[cfg(verif_playback)]
+fn sym(op: BinaryOpType) -> &'static str {
+    use BinaryOpType::*;
+    match op { Mul => "*", Div => "/", Mod => "%", Add => "+", Sub => "-", Lhs => "<<", Rhs => ">>", Lt => "<", Gt => ">", Lte => "<=", Gte => ">=", BitAnd => "&", BitOr => "|", BitXor => "^", Eq => "==", Neq => "!=", And => "&&", Or => "||", In => "in" }
+}
+
+fn op_table_case(op: BinaryOpType) {
+    let (ka, kb) = (any_kind(), any_kind());
+    let a = any_val_of(ka, 1);
+    let b = any_val_of(kb, 2);
+    let want = defined(op, ka, kb);
+    #[cfg(verif_playback)]
+    {
+        println!("REPLAY-INPUT: {:?} {:?} {:?}  a={:?} b={:?} defined={:?}", ka, op, kb, a, b, want);
+        if !(ka == Kind::Bool && matches!(op, BinaryOpType::And | BinaryOpType::Or)) {
+            println!("REPLAY-JSONNET: std.type({} {} {})", jsonnet_of(&a), sym(op), jsonnet_of(&b));
+            match want { Some(true) => println!("REPLAY-EXPECT: nocrash"), Some(false) => println!("REPLAY-EXPECT: error"), None => println!("REPLAY-EXPECT: nocrash") }
+        }
+    }
+    let r = bin(&a, op, &b);
+    if let Some(w) = want {
+        assert!(r.is_ok() == w, "C01.op_table an operator application fails exactly when the operator table does not define it for the operand types");
+    }
+    if r.is_ok() && matches!(op, BinaryOpType::Eq | BinaryOpType::Neq | BinaryOpType::Lt | BinaryOpType::Gt | BinaryOpType::Lte | BinaryOpType::Gte | BinaryOpType::And | BinaryOpType::Or | BinaryOpType::In) {
+        assert!(as_bool(&r).is_some(), "C01.op_result_type comparison and logic operators yield booleans");
+    }
+    kani::cover!(want == Some(false) && ka == kb, "same-kind operands rejected reached");
+    kani::cover!(matches!(op, BinaryOpType::Eq | BinaryOpType::Neq) || (want == Some(false) && ka != kb), "mixed-kind operands rejected reached");
+}
+macro_rules! op_table {
+    ($name:ident, $op:ident) => {
+        #[kani::proof]
+        #[kani::unwind(8)]
+        pub fn $name() {
+            op_table_case(BinaryOpType::$op);
+        }
+    };
+}
+//@harness name=optab_mul tier=quick timeout=600 unwind=8 desc="operator type table row `*`: for every pair of operand kinds the application fails exactly when the Jsonnet operator table does not define it" bounds="7x7 operand kinds; numbers: integers -128..=127; strings: <= 2 letters of a,b,c; arrays: <= 1 number; objects/functions: opaque"
+op_table!(optab_mul, Mul);
+//@harness name=optab_div tier=quick timeout=600 unwind=8 desc="operator type table row `/`: for every pair of operand kinds the application fails exactly when the Jsonnet operator table does not define it" bounds="7x7 operand kinds; numbers: integers -128..=127; strings: <= 2 letters of a,b,c; arrays: <= 1 number; objects/functions: opaque"
+op_table!(optab_div, Div);
+//@harness name=optab_mod tier=quick timeout=600 unwind=8 desc="operator type table row `%`: for every pair of operand kinds the application fails exactly when the Jsonnet operator table does not define it" bounds="7x7 operand kinds; numbers: integers -128..=127; strings: <= 2 letters of a,b,c; arrays: <= 1 number; objects/functions: opaque"
+op_table!(optab_mod, Mod);
+//@harness name=optab_add tier=quick timeout=600 unwind=8 desc="operator type table row `+`: for every pair of operand kinds the application fails exactly when the Jsonnet operator table does not define it" bounds="7x7 operand kinds; numbers: integers -128..=127; strings: <= 2 letters of a,b,c; arrays: <= 1 number; objects/functions: opaque"
+op_table!(optab_add, Add);
+//@harness name=optab_sub tier=quick timeout=600 unwind=8 desc="operator type table row `-`: for every pair of operand kinds the application fails exactly when the Jsonnet operator table does not define it" bounds="7x7 operand kinds; numbers: integers -128..=127; strings: <= 2 letters of a,b,c; arrays: <= 1 number; objects/functions: opaque"
+op_table!(optab_sub, Sub);
+//@harness name=optab_shl tier=quick timeout=600 unwind=8 desc="operator type table row `<<`: for every pair of operand kinds the application fails exactly when the Jsonnet operator table does not define it" bounds="7x7 operand kinds; numbers: integers -128..=127; strings: <= 2 letters of a,b,c; arrays: <= 1 number; objects/functions: opaque"
+op_table!(optab_shl, Lhs);
+//@harness name=optab_shr tier=quick timeout=600 unwind=8 desc="operator type table row `>>`: for every pair of operand kinds the application fails exactly when the Jsonnet operator table does not define it" bounds="7x7 operand kinds; numbers: integers -128..=127; strings: <= 2 letters of a,b,c; arrays: <= 1 number; objects/functions: opaque"
+op_table!(optab_shr, Rhs);
+//@harness name=optab_lt tier=quick timeout=600 unwind=8 desc="operator type table row `<`: for every pair of operand kinds the application fails exactly when the Jsonnet operator table does not define it" bounds="7x7 operand kinds; numbers: integers -128..=127; strings: <= 2 letters of a,b,c; arrays: <= 1 number; objects/functions: opaque"
+op_table!(optab_lt, Lt);
+//@harness name=optab_gt tier=quick timeout=600 unwind=8 desc="operator type table row `>`: for every pair of operand kinds the application fails exactly when the Jsonnet operator table does not define it" bounds="7x7 operand kinds; numbers: integers -128..=127; strings: <= 2 letters of a,b,c; arrays: <= 1 number; objects/functions: opaque"
+op_table!(optab_gt, Gt);
+//@harness name=optab_lte tier=quick timeout=600 unwind=8 desc="operator type table row `<=`: for every pair of operand kinds the application fails exactly when the Jsonnet operator table does not define it" bounds="7x7 operand kinds; numbers: integers -128..=127; strings: <= 2 letters of a,b,c; arrays: <= 1 number; objects/functions: opaque"
+op_table!(optab_lte, Lte);
+//@harness name=optab_gte tier=quick timeout=600 unwind=8 desc="operator type table row `>=`: for every pair of operand kinds the application fails exactly when the Jsonnet operator table does not define it" bounds="7x7 operand kinds; numbers: integers -128..=127; strings: <= 2 letters of a,b,c; arrays: <= 1 number; objects/functions: opaque"
+op_table!(optab_gte, Gte);
+//@harness name=optab_bitand tier=quick timeout=600 unwind=8 desc="operator type table row `&`: for every pair of operand kinds the application fails exactly when the Jsonnet operator table does not define it" bounds="7x7 operand kinds; numbers: integers -128..=127; strings: <= 2 letters of a,b,c; arrays: <= 1 number; objects/functions: opaque"
+op_table!(optab_bitand, BitAnd);
+//@harness name=optab_bitor tier=quick timeout=600 unwind=8 desc="operator type table row `|`: for every pair of operand kinds the application fails exactly when the Jsonnet operator table does not define it" bounds="7x7 operand kinds; numbers: integers -128..=127; strings: <= 2 letters of a,b,c; arrays: <= 1 number; objects/functions: opaque"
+op_table!(optab_bitor, BitOr);
+//@harness name=optab_bitxor tier=quick timeout=600 unwind=8 desc="operator type table row `^`: for every pair of operand kinds the application fails exactly when the Jsonnet operator table does not define it" bounds="7x7 operand kinds; numbers: integers -128..=127; strings: <= 2 letters of a,b,c; arrays: <= 1 number; objects/functions: opaque"
+op_table!(optab_bitxor, BitXor);
+//@harness name=optab_eq tier=quick timeout=600 unwind=8 desc="operator type table row `==`: for every pair of operand kinds the application fails exactly when the Jsonnet operator table does not define it" bounds="7x7 operand kinds; numbers: integers -128..=127; strings: <= 2 letters of a,b,c; arrays: <= 1 number; objects/functions: opaque"
+op_table!(optab_eq, Eq);
+//@harness name=optab_neq tier=quick timeout=600 unwind=8 desc="operator type table row `!=`: for every pair of operand kinds the application fails exactly when the Jsonnet operator table does not define it" bounds="7x7 operand kinds; numbers: integers -128..=127; strings: <= 2 letters of a,b,c; arrays: <= 1 number; objects/functions: opaque"
+op_table!(optab_neq, Neq);
+//@harness name=optab_and tier=quick timeout=600 unwind=8 desc="operator type table row `&&`: for every pair of operand kinds the application fails exactly when the Jsonnet operator table does not define it" bounds="7x7 operand kinds; numbers: integers -128..=127; strings: <= 2 letters of a,b,c; arrays: <= 1 number; objects/functions: opaque"
+op_table!(optab_and, And);
+//@harness name=optab_or tier=quick timeout=600 unwind=8 desc="operator type table row `||`: for every pair of operand kinds the application fails exactly when the Jsonnet operator table does not define it" bounds="7x7 operand kinds; numbers: integers -128..=127; strings: <= 2 letters of a,b,c; arrays: <= 1 number; objects/functions: opaque"
+op_table!(optab_or, Or);
+//@harness name=optab_in tier=quick timeout=600 unwind=8 desc="operator type table row `in`: for every pair of operand kinds the application fails exactly when the Jsonnet operator table does not define it" bounds="7x7 operand kinds; numbers: integers -128..=127; strings: <= 2 letters of a,b,c; arrays: <= 1 number; objects/functions: opaque"
+op_table!(optab_in, In);
+
+//@harness tier=quick timeout=900 desc="== / != / std.equals / std.primitiveEquals over all kinds: different kinds are unequal, same primitive kinds compare by content, != is the negation, primitiveEquals rejects arrays/objects/functions" bounds="7x7 operand kinds, contents as in op_type_table"
+#[kani::proof]
+#[kani::unwind(8)]
+pub fn equality_table() {
+    let (ka, kb) = (any_kind(), any_kind());
+    let a = any_val_of(ka, 1);
+    let b = any_val_of(kb, 2);
+    let eq = bin(&a, BinaryOpType::Eq, &b);
+    let ne = bin(&a, BinaryOpType::Neq, &b);
+    let pe = primitive_equals(&a, &b);
+    #[cfg(verif_playback)]
+    {
+        println!("REPLAY-INPUT: a={:?} b={:?}", a, b);
+        println!("REPLAY-JSONNET: std.type({} == {})", jsonnet_of(&a), jsonnet_of(&b));
+        println!("REPLAY-EXPECT: {}", if ka == Kind::Func && kb == Kind::Func { "error" } else { "nocrash" });
+    }
+    if ka != kb {
+        assert!(as_bool(&eq) == Some(false), "C13.equals.kinds values of different types are never equal");
+        assert!(matches!(pe, Ok(false)), "C13.primitiveEquals.kinds");
+    } else {
+        let content_eq = match (&a, &b) {
+            (Val::Null, Val::Null) => Some(true),
+            (Val::Bool(x), Val::Bool(y)) => Some(x == y),
+            (Val::Num(x), Val::Num(y)) => Some(x.get() == y.get()),
+            (Val::Str(x), Val::Str(y)) => Some(x.0.as_bytes() == y.0.as_bytes()),
+            (Val::Arr(x), Val::Arr(y)) => Some(x.n == y.n && (x.n == 0 || matches!((x.e[0], y.e[0]), (Prim::Num(p), Prim::Num(q)) if p == q))),
+            _ => None,
+        };
+        if let Some(c) = content_eq {
+            assert!(as_bool(&eq) == Some(c), "C13.equals.content values of the same primitive/array type compare by content");
+        }
+        if ka == Kind::Func {
+            assert!(eq.is_err(), "C13.equals.functions comparing two functions is an error");
+        }
+        match ka {
+            Kind::Arr | Kind::Obj | Kind::Func => assert!(pe.is_err(), "C13.primitiveEquals.rejects primitiveEquals rejects arrays, objects and functions"),
+            _ => assert!(matches!(pe, Ok(x) if Some(x) == content_eq), "C13.primitiveEquals.content"),
+        }
+    }
+    if let (Some(e), Some(n)) = (as_bool(&eq), as_bool(&ne)) {
+        assert!(e != n, "C13.neq != is the negation of ==");
+    }
+    assert!(eq.is_ok() == ne.is_ok(), "C13.neq.errors == and != fail together");
+    kani::cover!(ka == Kind::Str && kb == Kind::Str && as_bool(&eq) == Some(true), "equal strings reached");
+    kani::cover!(ka == Kind::Arr && kb == Kind::Arr && as_bool(&eq) == Some(false), "unequal arrays reached");
+}
+
+//@harness tier=quick timeout=600 desc="unary operators over all kinds: - + ~ need a number, ! needs a boolean, everything else is an error" bounds="4 operators x 7 operand kinds"
+#[kani::proof]
+#[kani::unwind(8)]
+pub fn unary_type_table() {
+    let k = any_kind();
+    let v = any_val_of(k, 1);
+    let which: u8 = kani::any();
+    kani::assume(which < 4);
+    let op = [UnaryOpType::Plus, UnaryOpType::Minus, UnaryOpType::BitNot, UnaryOpType::Not][which as usize];
+    let r = evaluate_unary_op(op, &v);
+    let want = if which == 3 { k == Kind::Bool } else { k == Kind::Num };
+    #[cfg(verif_playback)]
+    {
+        println!("REPLAY-INPUT: op={:?} v={:?}", op, v);
+        println!("REPLAY-JSONNET: std.type({}{})", ["+", "-", "~", "!"][which as usize], jsonnet_of(&v));
+        println!("REPLAY-EXPECT: {}", if want { "nocrash" } else { "error" });
+    }
+    assert!(r.is_ok() == want, "C01.unary_table a unary operator applies exactly to its operand type");
+    if which == 3 && want {
+        assert!(matches!((&r, &v), (Ok(Val::Bool(x)), Val::Bool(y)) if *x == !*y), "C01.not logical negation");
+    }
+    kani::cover!(want && which == 3, "! on a boolean reached");
+    kani::cover!(!want && k == Kind::Str, "unary on a string reached");
 }
